@@ -1,0 +1,108 @@
+//go:build verif
+
+// Contracts for the scanner, checked by /verif/kbv (build tag "verif"). Comments only.
+
+package scanner
+
+//@ pred wf_scanner(r) = r != nil && r.store != nil && r.coder != nil && r.metricCli != nil && r.compactHistories != nil && is_compact_key(r.config.CompactKey)
+
+// ---- result receivers (interface contract; the concrete receivers are verified under C03/C13) ----
+
+//@ func resultReceiver.append(key, value, revision)
+//@   assumed
+//@   modifies commonResultReceiver.result streamResultReceiver.batch []*proto.KeyValue proto.KeyValue.Key proto.KeyValue.Value proto.KeyValue.Revision
+//@ func resultReceiver.flush()
+//@   assumed
+//@   modifies streamResultReceiver.batch
+//@ func resultReceiver.close()
+//@   assumed
+//@   modifies streamResultReceiver.batch
+//@ func resultReceiver.reset()
+//@   assumed
+//@   modifies commonResultReceiver.result streamResultReceiver.batch
+//@ func resultReceiver.needMore() (result)
+//@   assumed
+//@   pure
+//@ func resultReceiver.fork() (result)
+//@   assumed
+//@   ensures [non-nil] result != nil
+//@ func resultReceiver.merge(receiver)
+//@   assumed
+//@   modifies commonResultReceiver.result []*proto.KeyValue
+
+// ---- C08 ----
+
+//@ func (*scanner).checkCompactRace(ctx, revision, compact) (err)
+//@   props C08
+//@   requires wf_scanner(r) && !batch_open
+//@   modifies ghost.bw_n ghost.bw_kind ghost.bw_key ghost.bw_val ghost.bw_ttl ghost.commits ghost.last_batch ghost.last_err ghost.batch_open ghost.floor ghost.floor_set
+//@   ensures [read-refused-below-floor] !compact && err == nil ==> !floor_set || floor <= revision
+//@   ensures [read-leaves-floor] !compact ==> floor == old(floor) && floor_set == old(floor_set)
+//@   ensures [floor-monotone] old(floor_set) ==> floor_set && floor >= old(floor)
+//@   ensures [closed] !batch_open
+
+//@ func (*worker).run(ctx, receiver) (count, err)
+//@   assumed
+//@   modifies inferred:(*worker).run
+//@   requires [floor-checked] w.compact || !floor_set || floor <= w.revision
+
+//@ func (*worker).runWithBackoffRetry(ctx, receiver) (count, err)
+//@   props C08
+//@   nosafety
+//@   modifies inferred:(*worker).runWithBackoffRetry
+//@   requires [floor-checked] w.compact || !floor_set || floor <= w.revision
+
+//@ func newWorker(conf, store, coder, metricCli) (w)
+//@   props C08
+//@   ensures [fields] w != nil && fresh(w) && w.revision == conf.revision && w.compact == conf.compact && w.tso == conf.tso && w.timeoutRevision == conf.timeoutRevision && w.store == store
+
+//@ func (*scanner).scan$1(idx)
+//@   props C08
+//@   nosafety
+//@   modifies inferred:(*scanner).scan$1
+//@   requires [floor-checked] compact || !floor_set || floor <= revision
+
+//@ func (*scanner).scan(ctx, start, end, revision, compact, receiver) (count, err)
+//@   props C08
+//@   nosafety
+//@   requires wf_scanner(r) && !batch_open
+//@   modifies inferred:(*scanner).scan  ghost.bw_n ghost.bw_kind ghost.bw_key ghost.bw_val ghost.bw_ttl ghost.commits ghost.last_batch ghost.last_err ghost.batch_open ghost.floor ghost.floor_set
+//@   ensures [floor-monotone] old(floor_set) ==> floor_set && floor >= old(floor)
+//@   ensures [read-leaves-floor] !compact ==> floor == old(floor) && floor_set == old(floor_set)
+//@   ensures [closed] !batch_open
+
+//@ func (*scanner).rangeWithLimit(ctx, start, end, revision, limit) (kvs, err)
+//@   props C08
+//@   nosafety
+//@   requires wf_scanner(r) && !batch_open
+//@   modifies inferred:(*scanner).rangeWithLimit ghost.bw_n ghost.bw_kind ghost.bw_key ghost.bw_val ghost.bw_ttl ghost.commits ghost.last_batch ghost.last_err ghost.batch_open ghost.floor ghost.floor_set
+//@   ensures [floor-unchanged] floor == old(floor) && floor_set == old(floor_set)
+
+//@ func (*scanner).Range(ctx, start, end, revision, limit) (kvs, err)
+//@   props C08
+//@   nosafety
+//@   requires wf_scanner(r) && !batch_open
+//@   modifies inferred:(*scanner).Range ghost.bw_n ghost.bw_kind ghost.bw_key ghost.bw_val ghost.bw_ttl ghost.commits ghost.last_batch ghost.last_err ghost.batch_open ghost.floor ghost.floor_set
+//@   ensures [floor-unchanged] floor == old(floor) && floor_set == old(floor_set)
+
+//@ func (*scanner).Count(ctx, start, end, revision) (n, err)
+//@   props C08
+//@   nosafety
+//@   requires wf_scanner(r) && !batch_open
+//@   modifies inferred:(*scanner).Count ghost.bw_n ghost.bw_kind ghost.bw_key ghost.bw_val ghost.bw_ttl ghost.commits ghost.last_batch ghost.last_err ghost.batch_open ghost.floor ghost.floor_set
+//@   ensures [floor-unchanged] floor == old(floor) && floor_set == old(floor_set)
+
+//@ func (*scanner).Compact(ctx, start, end, revision)
+//@   props C08
+//@   nosafety
+//@   requires wf_scanner(r) && !batch_open
+//@   modifies inferred:(*scanner).Compact ghost.bw_n ghost.bw_kind ghost.bw_key ghost.bw_val ghost.bw_ttl ghost.commits ghost.last_batch ghost.last_err ghost.batch_open ghost.floor ghost.floor_set
+//@   ensures [floor-monotone] old(floor_set) ==> floor_set && floor >= old(floor)
+//@   ensures [closed] !batch_open
+
+//@ func Scanner.Compact(ctx, start, end, revision)
+//@   assumed
+//@   requires [no-open-batch] !batch_open
+//@   modifies inferred:(*scanner).Compact ghost.bw_n ghost.bw_kind ghost.bw_key ghost.bw_val ghost.bw_ttl ghost.commits ghost.last_batch ghost.last_err ghost.batch_open ghost.floor ghost.floor_set
+//@   ensures [floor-monotone] old(floor_set) ==> floor_set && floor >= old(floor)
+//@   ensures [closed] !batch_open
